@@ -61,3 +61,15 @@ package transaction
 //@   ensures {C20} refusal-fails-the-change-and-moves-the-cursor: deviceSetCalls > old(deviceSetCalls) && v3Refused(deviceCode) && err == nil ==> v3ApplyState(transaction) == configapi.TransactionPhaseStatus_FAILED && transaction.Status.Change.Apply.Failure != nil && configuration.Applied.Index == transaction.ID.Index && configuration.Applied.Ordinal == transaction.Status.Change.Ordinal && configuration.Applied.Revision == old(configuration.Applied.Revision)
 //@   ensures {C20} apply-touches-nothing-committed: configuration.Committed.Index == old(configuration.Committed.Index) && configuration.Committed.Change == old(configuration.Committed.Change) && configuration.Committed.Ordinal == old(configuration.Committed.Ordinal) && configuration.Committed.Revision == old(configuration.Committed.Revision) && configuration.Committed.Target == old(configuration.Committed.Target) && v3CommitState(transaction) == old(v3CommitState(transaction))
 //@   ensures {C20} applied-cursors-only-move-to-this-transaction: (configuration.Applied.Index != old(configuration.Applied.Index) ==> configuration.Applied.Index == transaction.ID.Index) && (configuration.Applied.Target != old(configuration.Applied.Target) ==> configuration.Applied.Target == transaction.ID.Index) && (configuration.Applied.Ordinal != old(configuration.Applied.Ordinal) ==> configuration.Applied.Ordinal == transaction.Status.Change.Ordinal)
+
+//@ spec v3RbCommitState(t *configapi.Transaction) int = t.Status.Rollback.Commit.State
+// Rollbacks in reverse order: a rollback is committed only for the change whose revision the configuration
+// currently holds (the latest committed change), and restores the revision that change displaced.
+//@ func (*Reconciler).commitRollback(r, ctx, transaction, configuration) (result, ok, err)
+//@   props C20
+//@   requires v3Ready(r, transaction, configuration) && transaction.ID.Index > 0
+//@   ensures {C20} rollback-commit-only-of-the-latest-change: old(v3RbCommitState(transaction)) == configapi.TransactionPhaseStatus_PENDING && v3RbCommitState(transaction) != configapi.TransactionPhaseStatus_PENDING ==> old(configuration.Committed.Revision) == transaction.ID.Index && v3RbCommitState(transaction) == configapi.TransactionPhaseStatus_IN_PROGRESS && configuration.Committed.Target == transaction.Status.Rollback.Index
+//@   ensures {C20} rollback-restores-the-displaced-revision: configuration.Committed.Revision != old(configuration.Committed.Revision) ==> old(v3RbCommitState(transaction)) == configapi.TransactionPhaseStatus_IN_PROGRESS && old(configuration.Committed.Revision) == transaction.ID.Index && configuration.Committed.Revision == transaction.Status.Rollback.Index && configuration.Committed.Ordinal == old(configuration.Committed.Ordinal) + 1 && configuration.Committed.Index == transaction.ID.Index
+//@   ensures {C20} rollback-commit-completes-with-its-ordinal: v3RbCommitState(transaction) == configapi.TransactionPhaseStatus_COMPLETE && old(v3RbCommitState(transaction)) != configapi.TransactionPhaseStatus_COMPLETE ==> old(v3RbCommitState(transaction)) == configapi.TransactionPhaseStatus_IN_PROGRESS && transaction.Status.Rollback.Ordinal == configuration.Committed.Ordinal
+//@   ensures {C20} rollback-commit-touches-nothing-applied: configuration.Applied.Index == old(configuration.Applied.Index) && configuration.Applied.Ordinal == old(configuration.Applied.Ordinal) && configuration.Applied.Revision == old(configuration.Applied.Revision) && configuration.Applied.Target == old(configuration.Applied.Target) && deviceSetCalls == old(deviceSetCalls) && v3CommitState(transaction) == old(v3CommitState(transaction)) && v3ApplyState(transaction) == old(v3ApplyState(transaction))
+//@   ensures {C20} rollback-commit-ordinal-monotone: configuration.Committed.Ordinal >= old(configuration.Committed.Ordinal) && configuration.Committed.Change == old(configuration.Committed.Change)
